@@ -22,7 +22,8 @@ VOCAB = ["proto", "import", "option", "type", "const", "enum", "message", "typed
          "0xFFFFFFFFFFFFFFFFFFFFFFFF", "00", "123456789012345678901234567890", "true", "false", "yes", "no", '"str"', '""', '"a\\nb"', '"\\q"',
          '"\\\\"', '"it\'s"', '"unterminated', "+", "-", "*", "/", "(", ")", ":", ";", "{", "}", "[", "]", "=", "'", ".", ",", "\n", "\n", " ",
          "// c\n", "Name", "name", "NAME", "A.B", "A.B.C.D", "_", "__init__", "é", "\t", "\\", "max_bytes", "c.name_prefix", "lib", "lib.Thing",
-         '"lib.bitproto"', '"missing.bitproto"', '"fuzz.bitproto"', '"li\x00b.bitproto"', '"\x00"', '"/"', '""', '"."', '"..///lib.bitproto"', "/", "0", "( 1 / 0 )", "1 / ( 2 - 2 )", "@", "#", "$", "\x0b", "\x00"]
+         '"lib.bitproto"', '"missing.bitproto"', '"fuzz.bitproto"', '"li\x00b.bitproto"', '"\x00"', '"/"', '""', '"."', '"..///lib.bitproto"', "/", "0", "( 1 / 0 )", "1 / ( 2 - 2 )", "@", "#", "$", "\x0b", "\x00",
+         '"10\u00a0EUR"', '"\ufeff"', '"a\u2028b"', '"\u200b\ue000\u3000"', '"\U0010ffff\u202e"', "\u00a0", "\ufeff", "\u2028", "// \u00a0\u200b\ufeff\n"]
 
 
 class Timeout(Exception):
